@@ -1,7 +1,8 @@
 #!/venv/bin/python
 """revert_fixes.py [--only sha,...] [--tier quick]: every 'fix:' commit recorded in known_findings.json is reverted in a
 scratch worktree of /repo (on top of HEAD) and the check of its property is run against that worktree: the check must
-report a VIOLATION (the defect returns). A revert that no longer applies cleanly is reported as 'conflict'."""
+report a VIOLATION (the defect returns). A revert that no longer applies cleanly falls back to a hand-made patch in selftest/reintroduced/<sha>.diff that
+re-introduces the defect on HEAD (reported as 'conflict' only if there is none)."""
 import json
 import os
 import subprocess
@@ -35,10 +36,18 @@ def main():
         try:
             rv = sh('git -C %s revert --no-commit %s' % (wt, sha))
             if rv.returncode:
-                rec['result'] = 'conflict'
-                out.append(rec)
-                print(json.dumps(rec), flush=True)
-                continue
+                # later fixes rewrote the same lines: the defect is re-introduced on HEAD by a hand-made patch instead
+                alt = os.path.join(VERIF, 'selftest', 'reintroduced', sha + '.diff')
+                sh('git -C %s revert --abort' % wt)
+                sh('git -C %s checkout -- .' % wt)
+                if not os.path.exists(alt) or sh('git -C %s apply %s' % (wt, alt)).returncode:
+                    rec['result'] = 'conflict'
+                    out.append(rec)
+                    print(json.dumps(rec), flush=True)
+                    continue
+                rec['how'] = 'revert conflicts with later fixes; defect re-introduced by selftest/reintroduced/%s.diff' % sha
+                rt = sh('cd %s && /venv/bin/python -m pytest -q -p no:cacheprovider -x 2>&1 | tail -1' % wt)
+                rec['tests_with_reintroduced_defect'] = rt.stdout.strip()[-60:]
             t0 = time.time()
             e = dict(os.environ, VERIF_REPO=wt)
             rc = sh('cd %s && /venv/bin/python run.py check %s %s' % (VERIF, f['property'], tier), env=e)
